@@ -4,6 +4,7 @@ import (
 	"fmt"
 	"os"
 	"sort"
+	"strings"
 )
 
 type checkFn func(*Ctx) (string, []string)
@@ -63,6 +64,33 @@ func main() {
 		os.Exit(2)
 	}
 	id := os.Args[2]
+	if id == "all" {
+		// every property on one load of the module (same verdicts and evidence as the single runs; exit = worst)
+		ids := []string{}
+		for k := range registry {
+			ids = append(ids, k)
+		}
+		sort.Strings(ids)
+		if len(os.Args) > 3 && !strings.HasPrefix(os.Args[3], "--") {
+			ids = strings.Split(os.Args[3], ",")
+		}
+		shared = newCtx("ALL", "quick")
+		shared.Load()
+		worst := 0
+		for _, k := range ids {
+			fn, ok := registry[k]
+			if !ok {
+				fmt.Fprintf(os.Stderr, "unknown property %s\n", k)
+				os.Exit(2)
+			}
+			code := runCheck(k, "quick", fn)
+			fmt.Printf("== %s exit=%d\n", k, code)
+			if code > worst {
+				worst = code
+			}
+		}
+		os.Exit(worst)
+	}
 	tier := os.Getenv("VERIF_TIER")
 	for i := 3; i < len(os.Args); i++ {
 		if os.Args[i] == "--tier" && i+1 < len(os.Args) {
